@@ -181,7 +181,17 @@ type needAtom struct{ atom string }
 func (n needAtom) Error() string { return "need " + n.atom }
 
 type evalCtx struct {
-	asg map[string]bool
+	asg    map[string]bool
+	rename map[string]string // symbol renaming (loop-carried values matched up to permutation)
+}
+
+func (e *evalCtx) sym(name string) string {
+	if e.rename != nil {
+		if n, ok := e.rename[name]; ok {
+			return n
+		}
+	}
+	return name
 }
 
 // canon returns the canonical string of t under the assignment; panics with needAtom when an
@@ -205,18 +215,44 @@ func (e *evalCtx) canon(t *Term) string {
 			return e.canon(t.Args[1])
 		}
 		return e.canon(t.Args[2])
-	case "const", "sym":
+	case "const":
 		return t.Val
+	case "sym":
+		return e.sym(t.Val)
 	case "struct":
 		type fv struct{ f, v string }
 		var fs []fv
-		for i, a := range t.Args {
-			v := e.canon(a)
-			if isZeroCanon(v) {
-				continue
+		var flat func(prefix string, st *Term)
+		flat = func(prefix string, st *Term) {
+			for i, a := range st.Args {
+				name := st.Fields[i]
+				if prefix != "" {
+					if strings.HasPrefix(name, "[") {
+						name = prefix + name
+					} else {
+						name = prefix + "." + name
+					}
+				}
+				inner := a
+				for inner.Op == "ite" {
+					if e.truth(inner.Args[0]) {
+						inner = inner.Args[1]
+					} else {
+						inner = inner.Args[2]
+					}
+				}
+				if inner.Op == "struct" {
+					flat(name, inner)
+					continue
+				}
+				v := e.canon(inner)
+				if isZeroCanon(v) {
+					continue
+				}
+				fs = append(fs, fv{name, v})
 			}
-			fs = append(fs, fv{t.Fields[i], v})
 		}
+		flat("", t)
 		sort.Slice(fs, func(i, j int) bool { return fs[i].f < fs[j].f })
 		var parts []string
 		for _, x := range fs {
@@ -276,6 +312,9 @@ func (e *evalCtx) poly(t *Term) Poly {
 		sort.Strings(parts)
 	}
 	s := t.Op + ":" + t.Val
+	if t.Op == "sym" {
+		s = t.Op + ":" + e.sym(t.Val)
+	}
 	if len(parts) > 0 {
 		s += "(" + strings.Join(parts, ",") + ")"
 	}
@@ -392,6 +431,9 @@ func (e *evalCtx) truth(t *Term) bool {
 		parts = append(parts, e.canon(a))
 	}
 	atom := t.Op + ":" + t.Val + "(" + strings.Join(parts, ",") + ")"
+	if t.Op == "sym" {
+		atom = t.Op + ":" + e.sym(t.Val) + "()"
+	}
 	v, ok := e.asg[atom]
 	if !ok {
 		panic(needAtom{atom})
@@ -401,6 +443,10 @@ func (e *evalCtx) truth(t *Term) bool {
 
 // tryCanon evaluates t; returns ("", atom) when an atom must be decided first.
 func tryCanon(t *Term, asg map[string]bool) (s string, need string) {
+	return tryCanonR(t, asg, nil)
+}
+
+func tryCanonR(t *Term, asg map[string]bool, rename map[string]string) (s string, need string) {
 	defer func() {
 		if r := recover(); r != nil {
 			if n, ok := r.(needAtom); ok {
@@ -410,7 +456,7 @@ func tryCanon(t *Term, asg map[string]bool) (s string, need string) {
 			panic(r)
 		}
 	}()
-	e := &evalCtx{asg}
+	e := &evalCtx{asg, rename}
 	return e.canon(t), ""
 }
 
@@ -421,13 +467,18 @@ type mismatch struct {
 
 // equivTerms: are a and b equal under every assignment of the boolean atoms they depend on?
 func equivTerms(a, b *Term, maxAtoms int) (bool, *mismatch, int) {
+	return equivTermsR(a, b, maxAtoms, nil)
+}
+
+// equivTermsR: as equivTerms, with the symbols of b renamed.
+func equivTermsR(a, b *Term, maxAtoms int, renameB map[string]string) (bool, *mismatch, int) {
 	cases := 0
 	var rec func(asg map[string]bool) *mismatch
 	rec = func(asg map[string]bool) *mismatch {
 		sa, need := tryCanon(a, asg)
 		if need == "" {
 			var sb string
-			sb, need = tryCanon(b, asg)
+			sb, need = tryCanonR(b, asg, renameB)
 			if need == "" {
 				cases++
 				if sa != sb {
